@@ -309,7 +309,7 @@ PROPS["C02"] = {
 }
 
 PROPS["C19"] = {
-    "streams": [{"name": "metrics"}, {"name": "view"}],
+    "streams": [{"name": "metrics"}, {"name": "view"}, {"name": "inst"}],
     "model_is_spec": ["metrics"],
     "spec_theorem": "the model response announces its body's length, carries every boolean as 1 for true, the nanosecond metrics in nanoseconds, one port_state sample per port and one path_trace_list sample per entry, and label values that un-escape to the original (C19.content_length_matches_body, boolean_metrics, nanosecond_metrics, label_escape_roundtrip)",
     "rule": "metrics: end to end through the real exporter process. Observable states (grandmaster / slave / boundary clock; 1 … 64 ports in every "
@@ -325,7 +325,11 @@ PROPS["C19"] = {
             "samples equals an independently written table (every metric by the meaning of its help text and unit suffix, true as 1, "
             "nanosecond metrics in nanoseconds, values exactly equal as binary64). FMT ops: the model's rendering of binary64 values "
             "against Rust's `{}` on random, integral, fixed-point and special bit patterns. view: C11's stream - the snapshot getters against the "
-            "instance's live data sets. distinct = distinct op lines",
+            "instance's live data sets. inst: `DUMP` ops (one op in 25 of the instance stream's histories) print every field of default_ds, "
+            "current_ds (with the Slave port's filter estimates, as main.rs passes them), parent_ds, time_properties_ds, path_trace_ds and of "
+            "port_ds() of every port - the getters the daemon builds its ObservableInstanceState from - compared with the model's state; "
+            "oracle: configuration-derived fields equal the INIT / PORT lines, port states equal the live ones, the current data set "
+            "carries the Slave port's estimates and zero otherwise. distinct = distinct op lines",
     "explanation": "Lean model of format.rs (metric table, label escaping, layout, Content-Length) incl. Rust's shortest-round-trip float rendering; theorems over every state; end-to-end byte-exact correspondence through serde_json, the socket and the exporter process",
     "assumptions": ["serde_json itself is not modelled: that a document written by the daemon reads back as the same state is established by the end-to-end runs (state in, samples out), not by a theorem",
                     "the observation socket delivers what the observer wrote (one write_all, then close), as the harness's socket does",
@@ -393,7 +397,7 @@ PROPS["C17"] = {
 }
 
 PROPS["C18"] = {
-    "streams": [{"name": "ovl"}],
+    "streams": [{"name": "ovl"}, {"name": "sysclock", "model": False}],
     "model_is_spec": ["ovl"],
     "spec_theorem": "the model's overlay clock is continuous across frequency changes, steps by exactly the requested offset, and advances at (1 + ppm/10^6) to within one unit of 2^-32 ns (C18.frequency_change_continuous, step_exact, rate)",
     "rule": "ovl: an OverlayClock over a test clock the stream controls: sequences of up to 50 operations - advances of the underlying "
@@ -402,7 +406,11 @@ PROPS["C18"] = {
             "2^48 s and anywhere between. Compared: every returned time, bit-exact. Independent oracle in exact integer arithmetic: a "
             "frequency change returns the reading before it and leaves it unchanged; a step returns and leaves the reading before it plus "
             "the offset, exactly; between adjustments the reading advances by du·(1+ppm/10^6) within 3 units of 2^-32 ns; conversion of the "
-            "current underlying time equals now(). distinct = distinct op lines",
+            "current underlying time equals now(). The overlay is reached through two SharedClock handles used alternately (shared_clock.rs). "
+            "sysclock (oracles only, no model: the clock underneath is the machine's): the daemon's SharedClock<OverlayClock<LinuxClock>> over "
+            "CLOCK_TAI through three handles - set_frequency (+-500 ppm), step_clock (+-10 s), now() and PortTimestampToTime of a fresh "
+            "socket timestamp, each bracketed by system clock readings taken just before and after and mapped through the affine map the "
+            "operations so far define (integer nanoseconds, 16 ns slack). distinct = distinct op lines",
     "explanation": "Lean theorems over the exact bit-pattern model of the affine map; ppm enters as the I96F32 value the f64 is converted to",
     "assumptions": ["ppm values are driven as multiples of 2^-32 (exactly representable in f64 and in I96F32), so the f64 -> fixed conversion is exact; other f64 values differ by its rounding (< 2^-33 ppm)",
                     "overlay times that would be negative are outside the property (Time is unsigned and saturates at zero)"],
@@ -418,7 +426,15 @@ def split_obs(obs):
 
 
 def projection(pid, stream, profile):
-    """returns f(op_line, observation_line) -> comparable value or None (= not compared for this property)"""
+    """returns f(op_line, observation_line) -> comparable value or None (= not compared for this property).
+    `DUMP` lines (every field of the observable data sets) belong to C19 only."""
+    inner = _projection(pid, stream, profile)
+    if pid == "C19" and stream == "inst":
+        return lambda op, obs: obs if op.strip() == "DUMP" else None
+    return lambda op, obs: None if op.strip() == "DUMP" else inner(op, obs)
+
+
+def _projection(pid, stream, profile):
     def ident(op, obs):
         return obs
     if stream in ("inst", "bmca", "fml") and pid in ("C05", "C06"):
@@ -465,7 +481,7 @@ def projection(pid, stream, profile):
             return "panic" if "R panic" in obs else "returned"
         return f3
     if pid == "C19" and stream == "view":
-        return projection("C11", stream, profile)
+        return _projection("C11", stream, profile)
     if pid in ("C13", "C02"):
         def f13(op, obs):
             return "R panic" if obs.startswith("R panic") else obs
